@@ -759,6 +759,17 @@ def generics():
                 w = World().fill("main", pre_s + [Expr(Call("gtake", copy.deepcopy(e)))])
                 w.funcs.append(Func("gtake", [Param(T_, "v")], TY["int"], [Ret(I(0))]))
                 out.append(case("gen:arg:" + tag, "type", w, "%s passed to a parameter of type %s" % (sn, tn)))
+                gu = Class("GU", methods=[Method("mtake", [Param(T_, "v")], TY["int"], [Ret(I(0))]), Method("stake", [Param(T_, "v")], TY["int"], [Ret(I(0))], static=True)],
+                           ctors=[Ctor([], [], default=True), Ctor([Param(T_, "v")], [])])
+                w = World().fill("main", pre_s + [Decl(C("GU"), "gu", New("GU")), Expr(MCall(Var("gu"), "mtake", copy.deepcopy(e)))])
+                w.classes.append(copy.deepcopy(gu))
+                out.append(case("gen:marg:" + tag, "type", w, "%s passed to a method parameter of type %s" % (sn, tn)))
+                w = World().fill("main", pre_s + [Expr(SCall("GU", "stake", copy.deepcopy(e)))])
+                w.classes.append(copy.deepcopy(gu))
+                out.append(case("gen:sarg:" + tag, "type", w, "%s passed to a static method parameter of type %s" % (sn, tn)))
+                w = World().fill("main", pre_s + [Decl(C("GU"), "gu", New("GU", copy.deepcopy(e)))])
+                w.classes.append(copy.deepcopy(gu))
+                out.append(case("gen:carg:" + tag, "type", w, "%s passed to a constructor parameter of type %s" % (sn, tn)))
                 w = World()
                 w.funcs.append(Func("gret", [], T_, pre() + pre_s + [Ret(copy.deepcopy(e))]))
                 out.append(case("gen:return:" + tag, "type", w, "%s returned as %s" % (sn, tn)))
